@@ -408,7 +408,7 @@ class SpecGen:
             vals = [r.choice(["a", "b", "ab", "c", "abc", "A", "", "zz9"]) for _ in range(n)]
         elif dtype == "bool":
             vals = [r.choice([True, False]) for _ in range(n)]
-        elif dtype == "datetime64[ns]":
+        elif dtype in ("datetime64[ns]", "datetime_tz_agnostic"):
             vals = [r.choice(["2020-01-01", "2021-06-15", "1999-12-31", "2030-02-02"]) for _ in range(n)]
         else:
             vals = [r.choice([0, 1, 2]) for _ in range(n)]
@@ -433,6 +433,8 @@ class SpecGen:
                         cols.append({"name": base + suffix, "dtype": dt, "values": self.values(dt, n, dup=not c["unique"])})
                 else:
                     cols.append({"name": c["name"], "dtype": dt, "values": self.values(dt, n, dup=not c["unique"])})
+                    if dt == "datetime_tz_agnostic":
+                        cols[-1]["tz"] = r.choice(["UTC", "US/Eastern", "Asia/Tokyo"])
         elif kind == "column":
             c = spec["column"]
             cols.append({"name": c["name"], "dtype": c["dtype"] or "int64", "values": self.values(c["dtype"] or "int64", n)})
@@ -539,6 +541,8 @@ def _dtype(d, backend):
         return None
     if d == "simint":
         return SimInt()
+    if d == "datetime_tz_agnostic":
+        return pandas_engine.DateTime(time_zone_agnostic=True)
     if backend == "polars":
         return PL_DTYPES[d]
     return d
@@ -675,9 +679,15 @@ def build_schema(spec):
     raise ValueError(kind)
 
 
-def _series(values, dtype, name=None):
+def _series(values, dtype, name=None, tz=None):
     if dtype == "simint":
         dtype = "int64"
+    if dtype == "datetime_tz_agnostic":
+        ser = pd.Series(pd.to_datetime(pd.Series(values, dtype="object")), name=name)
+        try:
+            return ser.dt.tz_localize(tz or "UTC")
+        except Exception:  # noqa: BLE001
+            return ser
     try:
         if dtype == "datetime64[ns]":
             return pd.Series(pd.to_datetime(pd.Series(values, dtype="object")), name=name)
@@ -723,7 +733,7 @@ def build_frame(fr, backend="pandas", kind="dfs", lazy=False):
         s = _series(c["values"], c["dtype"], name=c["name"])
         s.index = idx
         return s
-    df = pd.DataFrame({k: _series(c["values"], c["dtype"]).values for k, c in enumerate(cols)}, index=idx)
+    df = pd.DataFrame({k: _series(c["values"], c["dtype"], tz=c.get("tz")).array for k, c in enumerate(cols)}, index=idx)
     df.columns = [c["name"] for c in cols]
     return df
 
@@ -784,3 +794,17 @@ def spec_features(spec):
 
 def clone_spec(spec):
     return copy.deepcopy(spec)
+
+
+_WARM = [False]
+
+
+def warm_registries():
+    """Fill the lazily populated process-wide registries (backend registries of both backends, built-in check
+    dispatchers) so that a run never depends on what earlier runs in the same worker process happened to import."""
+    if _WARM[0]:
+        return
+    pa.DataFrameSchema({"a": pa.Column(int, pa.Check.ge(0))}, index=pa.Index(int)).validate(pd.DataFrame({"a": [1]}))
+    pa.SeriesSchema(int).validate(pd.Series([1]))
+    pap.DataFrameSchema({"a": pap.Column(pl.Int64, pa.Check.ge(0))}).validate(pl.DataFrame({"a": [1]}))
+    _WARM[0] = True
